@@ -27,13 +27,13 @@ func init() {
 
 // Val is the structural value description shared by the harness, this driver and the Lean model.
 type Val struct {
-	K string          `json:"k"`           // s i f b t null unset arr nilarr obj alt any
-	V json.RawMessage `json:"v,omitempty"` // leaf payload / array elements / alt payload / raw json
-	F []Val           `json:"f,omitempty"` // obj: fields in struct order
+	K string               `json:"k"`           // s i f b t null unset arr nilarr obj alt any
+	V json.RawMessage      `json:"v,omitempty"` // leaf payload / array elements / alt payload / raw json
+	F []Val                `json:"f,omitempty"` // obj: fields in struct order
 	X [][2]json.RawMessage `json:"x,omitempty"` // obj: additional properties [key, val]
-	I int             `json:"i,omitempty"` // alt: variant index
-	C string          `json:"c,omitempty"` // leaf: canonical JSON text (for the Lean model; ignored here)
-	D string          `json:"d,omitempty"` // leaf: canonical dump text (for the Lean model; ignored here)
+	I int                  `json:"i,omitempty"` // alt: variant index
+	C string               `json:"c,omitempty"` // leaf: canonical JSON text (for the Lean model; ignored here)
+	D string               `json:"d,omitempty"` // leaf: canonical dump text (for the Lean model; ignored here)
 }
 
 // CanonAny / CanonJSON are exported for the harness (one canonical form on both sides).
